@@ -43,6 +43,7 @@ def _strategy():
         "cycles": st.lists(cyc, min_size=1, max_size=4),
         "cycle_mode": st.sampled_from(["long", "long", "short"]),
         "nsub": st.integers(1, 2),
+        "stop_mode": st.sampled_from(["app", "app", "in_callback"]),
         "lat": st.lists(st.sampled_from([1e-6, 0.0002, 0.001, 0.005]), min_size=1, max_size=2),
         "eps": st.lists(st.sampled_from([0.0, 1e-5, 1e-3]), min_size=1, max_size=2),
     })
@@ -178,12 +179,17 @@ class C16:
             supplied = []
             idx = [0]
 
+            stopped_in_cb = []
+
             def cb():
                 c = p["cycles"][idx[0] % len(p["cycles"])]
                 idx[0] += 1
                 lamps = dict(c["lamps"])
                 dtcs = dtcs_for(c["seed"], c["n"])
                 supplied.append((w.sim.now, dict(lamps), [dict(d) for d in dtcs]))
+                if p.get("stop_mode") == "in_callback" and idx[0] == stop_at and not stopped_in_cb:
+                    dm1.stop_send(cb)              # stop from inside the data callback: this cycle is the last one
+                    stopped_in_cb.append(w.sim.now)
                 return lamps, dtcs
 
             # duration of the longest message
@@ -198,11 +204,17 @@ class C16:
             else:
                 cycle = max(0.05, dmax * 0.4)
             ncyc = len(p["cycles"]) if p["cycle_mode"] == "long" else len(p["cycles"]) + 2
+            stop_at = ncyc
             dm1.start_send(cb, cycle)
             w.run_for(cycle * ncyc + cycle * 0.5)
-            dm1.stop_send(cb)
-            t_stop = w.sim.now
-            n_supplied_at_stop = len(supplied)
+            if stopped_in_cb:
+                t_stop = stopped_in_cb[0]
+                n_supplied_at_stop = stop_at
+                w.run_for(cycle)                  # give a surviving timer the chance to show itself
+            else:
+                dm1.stop_send(cb)
+                t_stop = w.sim.now
+                n_supplied_at_stop = len(supplied)
             w.run_for(dmax + 0.3)            # a transfer begun before stop_send may finish
             t_quiet_from = w.sim.now
             w.run_for(3 * cycle + 0.1)
@@ -280,7 +292,7 @@ class C16:
         if p["k"] == "e2e":
             multi = self._e2e(p, V)
             ns = [c["n"] for c in p["cycles"]]
-            labels = ["e2e-" + ("22" if p["dll"].endswith("22") else "21"), p["cycle_mode"]]
+            labels = ["e2e-" + ("22" if p["dll"].endswith("22") else "21"), p["cycle_mode"], "stop-" + p.get("stop_mode", "app")]
             if any(n == 1 for n in ns):
                 labels.append("single-frame")
             if any(2 <= n <= 14 for n in ns):
